@@ -915,7 +915,7 @@ def run(ctx):
                                                  first + calendar.monthrange(d.year, d.month)[1]))
     ctx.exhaustive = not ctx.quick
 
-    out = drv.run(lines + plines + cal_lines)
+    out = run_model(ctx, drv, lines + plines + cal_lines)
     ndis = 0
     for (rep, got), o in zip(cases, out):
         m = parse_out(o)
@@ -953,6 +953,18 @@ def run(ctx):
     # ---- stream 6: sink level – a real FileSink, frozen clock, observable = messages per file
     run_sink_stream(ctx, drv, rng, boost)
     dedup_broken(ctx)
+
+
+def run_model(ctx, drv, lines):
+    """the model's answers, or [] when the driver does not build against this tree (a broken tie: recorded, and the
+    remaining streams still judge the implementation with their direct oracles)"""
+    if not lines:
+        return []
+    try:
+        return drv.run(lines)
+    except core.DriverError as e:
+        ctx.broke("driver:" + DRIVER, str(e))
+        return []
 
 
 def dedup_broken(ctx):
@@ -1016,7 +1028,7 @@ def run_ctime_stream(ctx, drv, rng):
             os.remove(path)
     finally:
         shutil.rmtree(d, ignore_errors=True)
-    out = drv.run(lines) if lines else []
+    out = run_model(ctx, drv, lines)
     for (got, back, rep), o in zip(exp, out):
         ctx.traces_validated += 1
         if o != "ok %d %d" % (got, back):
@@ -1113,7 +1125,7 @@ def run_sink_stream(ctx, drv, rng, boost):
                         for u in ops)
         lines.append("sink %s %d %d %s" % (token, eff, len(pre or b""), msgs))
         expect.append((rep, obs))
-    out = drv.run(lines) if lines else []
+    out = run_model(ctx, drv, lines)
     for (rep, obs), o in zip(expect, out):
         ctx.traces_validated += 1
         m = parse_out(o)
